@@ -202,7 +202,7 @@ func compare(got []out, w []want, typ int, tol float64) string {
 var streamFns = []string{"derivative", "non_negative_derivative", "difference", "non_negative_difference", "moving_average", "cumulative_sum", "elapsed"}
 
 func TestPropStream(t *testing.T) {
-	rec.Check(t, 60000, 1800000, func(t *rapid.T) {
+	rec.Check(t, 60000, 1200000, func(t *rapid.T) {
 		fn := rapid.SampledFrom(streamFns).Draw(t, "fn")
 		s := genSeries(t, 60, true)
 		unit := genUnit(t)
